@@ -1,6 +1,6 @@
 """Fault-enumeration oracle for C19: drives harness/mem_sweep.cpp (see its head comment for the
 command-line protocol).  Every random choice comes from the `rng` argument."""
-import os, subprocess, collections
+import os, time, subprocess, collections
 from concurrent.futures import ThreadPoolExecutor
 
 from . import core
@@ -347,6 +347,14 @@ def check(ctx, known, widen=False, exe=None):
         plain_ref = None
         exe_ = exe_ or exe
         c = count(exe_, scenario, xsl, xml, env=env)
+        for _ in range(3):
+            # the library under .build is shared with the other checks: when one of them relinks it while this
+            # harness starts, the loader fails ("file too short", rc 127) - wait for the build lock and retry
+            if c.get("N") is not None or not (c.get("rc") == 127 or "shared libraries" in c.get("error", "")):
+                break
+            core.build_lib("asan" if with_plain else "plain")
+            time.sleep(2)
+            c = count(exe_, scenario, xsl, xml, env=env)
         tag = "%s/%s" % (scenario, os.path.basename(xsl))
         if c.get("N") is None:
             new.append({"case": replay_line(scenario, xsl, xml, "count", 0), "what": "counting run failed: " + c.get("error", "?")})
@@ -365,6 +373,12 @@ def check(ctx, known, widen=False, exe=None):
                     handler_new.add(handler_key(hs))
         ks = ks_of(c["N"])
         recs = sweep(exe_, scenario, xsl, xml, ks, mode=mode, env=env)
+        lost = [r["k"] for r in recs if r.get("outcome") == "harness-error"]
+        if lost:
+            core.build_lib("asan" if with_plain else "plain")
+            time.sleep(2)
+            again = {r["k"]: r for r in sweep(exe_, scenario, xsl, xml, lost, mode=mode, env=env)}
+            recs = [again.get(r["k"], r) if r.get("outcome") == "harness-error" else r for r in recs]
         children += len(recs)
         if with_plain:
             plain_ref = {r["k"]: r for r in sweep(exe, scenario, xsl, xml, ks, mode=mode)}
